@@ -6,6 +6,7 @@ import (
 	"bytes"
 	"fmt"
 	"testing"
+	"testing/synctest"
 	"time"
 
 	"github.com/libp2p/go-libp2p/core/crypto"
@@ -209,6 +210,7 @@ func c17run(r *kernel.Run, seed uint64) {
 			}
 			before := period(now)
 			time.Sleep(d)
+			synctest.Wait() // timers that became due (the cleanup of old rotation values) run before the next event
 			r.SimTime(d)
 			if period(time.Now()) != before {
 				r.Fault("clock_jump_across_period")
@@ -222,6 +224,7 @@ func c17run(r *kernel.Run, seed uint64) {
 			}
 			r.Logf("%s resolves %s", p.name, tp)
 		case a == 7: // exchange of rotation values between two peers that resolved in the current period
+			r.Logf("%s and %s resolve %s and exchange values", p.name, o.name, tp)
 			va, ok := resolve(p, tp, fmt.Sprintf("event %d (sender)", ev))
 			if !ok {
 				return
@@ -246,6 +249,12 @@ func c17run(r *kernel.Run, seed uint64) {
 			if !p.registered[tp] || !o.registered[tp] || p == o {
 				continue
 			}
+			r.Logf("head exchange for %s sealed by %s, opened by %s", tp, p.name, o.name)
+			// sealing resolves the topic on the sender (and may rotate its point): track it like any other resolve,
+			// otherwise the model's "previous value" of the sender falls one rotation behind the code's
+			if _, ok := resolve(p, tp, fmt.Sprintf("event %d (sender)", ev)); !ok {
+				return
+			}
 			if _, ok := resolve(o, tp, fmt.Sprintf("event %d (receiver)", ev)); !ok {
 				return
 			}
@@ -266,6 +275,7 @@ func c17run(r *kernel.Run, seed uint64) {
 			}
 			r.Probe("marshal_roundtrip")
 		default: // own previous value during the grace period; foreign values
+			r.Logf("%s: own previous value of %s (if within grace), foreign values", p.name, tp)
 			if prev := p.prevRotation[tp]; prev != nil && time.Since(p.rotatedAt[tp]) < rendezvous.RotationGracePeriod && !static {
 				if _, ok := resolve(p, tp, fmt.Sprintf("event %d", ev)); !ok {
 					return
